@@ -10,12 +10,25 @@ Proved here for change sets of ANY size: when no cycle is detected `DetachCycles
 change set (`detachCycles_perm`, via `stableSortBy_perm`), and the partition `SortChanges` starts from
 is a permutation (`partition_perm`).
 
-PARTIAL: that the final order replays without error on the reference catalogue for every graph
-(`plan_replays`: topological-sort correctness of `SortChanges` + acyclicity of `dependsOn` after
-detachment) is not proved yet; it is checked exhaustively on the enumerated space and on random
-larger graphs by the correspondence run and the monitor.
+`sortChanges_topo` (over `Lemmas/SortDfs.lean`): for change sets of ANY size with an acyclic dependency
+relation, `SortChanges` (the depth-first `add` closure with its fuel, the inverse-edge suppression and
+the drops-last partition) returns a permutation in which every change comes after all its dependencies.
+
+`create_plan_respects_fks` (`plan_replays` for change sets that only create tables, ANY number of tables
+and ANY foreign-key graph incl. cycles): every foreign key to another new table is established only
+after that table was created – through `create_acyclic_order` (soundness of `sortMap`'s cycle detection,
+`Lemmas/SortMap.lean`: success ⇒ every table got an index above those of its dependencies) and
+`create_cyclic_order` (explicit form of `detachReferences`, `Lemmas/SortDetach.lean`).
+
+PARTIAL: for change sets that also drop or modify tables, that `dependsOn` is acyclic after
+`DetachCycles` (the hypothesis of `sortChanges_topo`) and that the order replays on the reference
+catalogue is checked exhaustively on the enumerated space and on random larger graphs by the
+correspondence run and the replay monitor, not proved.
 -/
 import Atlas.Sort
+import Lemmas.SortDfs
+import Lemmas.SortMap
+import Lemmas.SortDetach
 
 namespace Props.C04
 open Atlas.Sort
@@ -70,6 +83,297 @@ theorem partition_perm (cs : List Ch) :
       have h2 : (c.kind == Kind.drop) = false := by simp [h]
       simp only [List.filter_cons, h1, h2, if_true, Bool.false_eq_true, if_false, List.cons_append]
       exact List.Perm.cons c ih
+
+/-! ### `SortChanges` is a topological sort (change sets of any size) -/
+
+/-- **sortChanges_topo**: for every change set with distinct identities whose dependency relation
+(`dependsOn` between different changes) is acyclic – witnessed by a rank that decreases along every
+dependency – `SortChanges` returns a permutation of the changes in which every change comes after
+everything it depends on. (After `DetachCycles` the relation is acyclic for the graphs the planners
+produce; that part is decided by the correspondence run and the replay monitor.) -/
+theorem sortChanges_topo (cs : List Ch) (rk : Ch → Nat)
+    (hnd : (cs.map (·.id)).Nodup)
+    (hrk : ∀ a ∈ cs, ∀ b ∈ cs, dependsOn a b = true → a.id ≠ b.id → rk b < rk a) :
+    (sortChanges cs).Perm cs ∧
+    ∀ pre c post, sortChanges cs = pre ++ c :: post →
+      ∀ d ∈ cs, dependsOn c d = true → c.id ≠ d.id → d ∈ pre := by
+  have hperm : (allOf cs).Perm cs := partition_perm cs
+  have hmem : ∀ x, x ∈ allOf cs ↔ x ∈ cs := fun x => hperm.mem_iff
+  have hnd' : ((allOf cs).map (·.id)).Nodup := (hperm.map _).nodup_iff.mpr hnd
+  have hid : ∀ x ∈ allOf cs, ∀ y ∈ allOf cs, x.id = y.id → x = y := by
+    intro x hx y hy he
+    have := hnd'
+    unfold List.Nodup at this
+    rw [List.pairwise_map] at this
+    by_cases hxy : x = y
+    · exact hxy
+    · exfalso
+      obtain ⟨i, hi, rfl⟩ := List.getElem_of_mem hx
+      obtain ⟨j, hj, rfl⟩ := List.getElem_of_mem hy
+      rw [List.pairwise_iff_getElem] at this
+      rcases Nat.lt_trichotomy i j with h | h | h
+      · exact this i j hi hj h he
+      · subst h; exact hxy rfl
+      · exact this j i hj hi h he.symm
+  have hrk' : ∀ a ∈ allOf cs, ∀ b ∈ allOf cs, dependsOn a b = true → a.id ≠ b.id → rk b < rk a :=
+    fun a ha b hb => hrk a ((hmem a).mp ha) b ((hmem b).mp hb)
+  have hedges_sub : ∀ c ∈ allOf cs, ∀ d ∈ edgesOf (allOf cs) c, d ∈ allOf cs := by
+    intro c _ d hd; unfold edgesOf at hd; exact (List.mem_filter.mp hd).1
+  have hedges_rk : ∀ c ∈ allOf cs, ∀ d ∈ edgesOf (allOf cs) c, rk d < rk c := by
+    intro c hc d hd
+    unfold edgesOf at hd
+    obtain ⟨hdm, hcon⟩ := List.mem_filter.mp hd
+    have hE : (c.id, d.id) ∈ hasEOf (allOf cs) := by simpa using hcon
+    obtain ⟨a, b, ha, hb, hai, hbi, hab, hdep⟩ := hasE_sound hE
+    have h1 : a = c := hid a ha c hc hai
+    have h2 : b = d := hid b hb d hdm hbi
+    subst h1; subst h2
+    exact hrk' a ha b hb hdep hab
+  have hlen : ∀ c ∈ allOf cs, (edgesOf (allOf cs) c).length ≤ (allOf cs).length := by
+    intro c _; unfold edgesOf; exact List.length_filter_le _ _
+  have hfuel : ((allOf cs).length + 2) * (allOf cs).length ≤
+      ((allOf cs).length + 2) * ((allOf cs).length + 2) + ((allOf cs).length + 2) := by
+    have : (allOf cs).length ≤ (allOf cs).length + 2 := by omega
+    have := Nat.mul_le_mul_left ((allOf cs).length + 2) this
+    omega
+  obtain ⟨hp, hclosed⟩ := dfs_correct (edges := edgesOf (allOf cs)) (rk := rk) (all := allOf cs)
+    (allOf cs).length _ hnd' hedges_sub hedges_rk hlen hfuel
+  rw [sortChanges_eq]
+  refine ⟨hp.trans hperm, ?_⟩
+  intro pre c post heq d hd hdep hne
+  apply hclosed pre c post heq
+  have hc : c ∈ allOf cs := by
+    have : c ∈ pre ++ c :: post := by simp
+    rw [← heq] at this
+    exact hp.mem_iff.mp this
+  have hdm : d ∈ allOf cs := (hmem d).mpr hd
+  unfold edgesOf
+  rw [List.mem_filter]
+  refine ⟨hdm, ?_⟩
+  have := hasE_complete rk hid hrk' hc hdm hne hdep
+  simpa using this
+
+/-! ### create-only change sets: every referenced table is created first -/
+
+theorem id_inj_of_nodup {l : List Ch} (hnd : (l.map (·.id)).Nodup) :
+    ∀ x ∈ l, ∀ y ∈ l, x.id = y.id → x = y := by
+  intro x hx y hy he
+  have := hnd
+  unfold List.Nodup at this
+  rw [List.pairwise_map] at this
+  by_cases hxy : x = y
+  · exact hxy
+  · exfalso
+    obtain ⟨i, hi, rfl⟩ := List.getElem_of_mem hx
+    obtain ⟨j, hj, rfl⟩ := List.getElem_of_mem hy
+    rw [List.pairwise_iff_getElem] at this
+    rcases Nat.lt_trichotomy i j with h | h | h
+    · exact this i j hi hj h he
+    · subst h; exact hxy rfl
+    · exact this j i hj hi h he.symm
+
+theorem table_inj_of_nodup {l : List Ch} (hnd : (l.map (·.table)).Nodup) :
+    ∀ x ∈ l, ∀ y ∈ l, x.table = y.table → x = y := by
+  intro x hx y hy he
+  have := hnd
+  unfold List.Nodup at this
+  rw [List.pairwise_map] at this
+  by_cases hxy : x = y
+  · exact hxy
+  · exfalso
+    obtain ⟨i, hi, rfl⟩ := List.getElem_of_mem hx
+    obtain ⟨j, hj, rfl⟩ := List.getElem_of_mem hy
+    rw [List.pairwise_iff_getElem] at this
+    rcases Nat.lt_trichotomy i j with h | h | h
+    · exact this i j hi hj h he
+    · subst h; exact hxy rfl
+    · exact this j i hj hi h he.symm
+
+/-- **create_acyclic_order**: a set of new tables (any number, one change per table) whose foreign-key
+graph passes the planner's cycle detection (`sortMap` succeeds; self references allowed) is planned as
+a permutation of the given changes in which every table is created after all the other tables its
+foreign keys reference. -/
+theorem create_acyclic_order (cs : List Ch) (m : List (String × Nat))
+    (hadd : ∀ c ∈ cs, c.kind = .add) (hid : (cs.map (·.id)).Nodup) (htab : (cs.map (·.table)).Nodup)
+    (hsm : sortMap cs = some m) :
+    (planOrder cs).Perm cs ∧
+    ∀ pre c post, planOrder cs = pre ++ c :: post →
+      ∀ fk ∈ c.fks, fk.ref ≠ c.table → ∀ d ∈ cs, d.table = fk.ref → d ∈ pre := by
+  have hperm : (detachCycles cs).Perm cs := detachCycles_perm cs m hsm
+  have hmem : ∀ x, x ∈ detachCycles cs ↔ x ∈ cs := fun x => hperm.mem_iff
+  have hid' : ((detachCycles cs).map (·.id)).Nodup := (hperm.map _).nodup_iff.mpr hid
+  obtain ⟨hinv, hkeys⟩ := sortMap_inv cs m hsm
+  have tinj := table_inj_of_nodup htab
+  have iinj := id_inj_of_nodup hid
+  -- rank: the index `sortMap` gave the table
+  have hrk : ∀ a ∈ detachCycles cs, ∀ b ∈ detachCycles cs, dependsOn a b = true → a.id ≠ b.id →
+      (lookup m b.table).getD 0 < (lookup m a.table).getD 0 := by
+    intro a ha b hb hdep hne
+    have ha' := (hmem a).mp ha
+    have hb' := (hmem b).mp hb
+    unfold dependsOn at hdep
+    rw [hadd a ha', hadd b hb'] at hdep
+    simp only [refTo, List.any_eq_true, beq_iff_eq] at hdep
+    obtain ⟨fk, hfk, hfr⟩ := hdep
+    have hab : a ≠ b := fun e => hne (by rw [e])
+    have htne : fk.ref ≠ a.table := by
+      rw [hfr]; intro e; exact hab (tinj a ha' b hb' e.symm)
+    have hhas := dependencies_add cs a ha' (hadd a ha') fk hfk htne
+    obtain ⟨i, j, hi, hj, hij⟩ := lookup_lt hinv (hkeys _ (has_key hhas)) hhas
+    rw [← hfr, hi, hj]; exact hij
+  obtain ⟨hp, hord⟩ := sortChanges_topo (detachCycles cs) (fun c => (lookup m c.table).getD 0) hid' hrk
+  unfold planOrder
+  refine ⟨hp.trans hperm, ?_⟩
+  intro pre c post heq fk hfk hne d hd hdt
+  have hc : c ∈ cs := by
+    have : c ∈ pre ++ c :: post := by simp
+    rw [← heq] at this
+    exact (hp.trans hperm).mem_iff.mp this
+  apply hord pre c post heq d ((hmem d).mpr hd)
+  · unfold dependsOn
+    rw [hadd c hc, hadd d hd]
+    simp only [refTo, List.any_eq_true, beq_iff_eq]
+    exact ⟨fk, hfk, hdt.symm⟩
+  · intro e
+    have : c = d := iinj c hc d hd e
+    rw [this] at hne
+    exact hne hdt.symm
+
+/-- **create_cyclic_order**: a set of new tables (any number, one change per table) whose foreign-key
+graph is reported cyclic by the planner (`sortMap` fails): the plan creates every table exactly once,
+with its self references only, and every foreign key to another table is added by an ALTER that comes
+after the creation of the table itself AND after the creation of the referenced table. -/
+theorem create_cyclic_order (cs : List Ch)
+    (hadd : ∀ c ∈ cs, c.kind = .add) (hid : (cs.map (·.id)).Nodup) (htab : (cs.map (·.table)).Nodup)
+    (hsm : sortMap cs = none) :
+    -- the creations are those of the given tables, each once, holding self references only
+    (((planOrder cs).filter (·.kind == .add)).map (·.table)).Perm (cs.map (·.table)) ∧
+    (∀ p ∈ planOrder cs, p.kind = .add → ∀ fk ∈ p.fks, fk.ref = p.table) ∧
+    -- every foreign key to another table is added after both tables exist
+    ∀ c ∈ cs, ∀ fk ∈ c.fks, fk.ref ≠ c.table →
+      ∃ pre d post, planOrder cs = pre ++ d :: post ∧ d.kind = .modify ∧ d.table = c.table ∧
+        Sub.addFK fk ∈ d.subs ∧ (∃ p ∈ pre, p.kind = .add ∧ p.table = c.table) ∧
+        ∀ q ∈ cs, q.table = fk.ref → ∃ p ∈ pre, p.kind = .add ∧ p.table = fk.ref := by
+  have hdet : detachCycles cs = plannedOf (freshBase cs) cs ++ deferredOf (freshBase cs) cs := by
+    unfold detachCycles; rw [hsm]; exact detachReferences_add cs hadd
+  have hidD : ((detachCycles cs).map (·.id)).Nodup := by
+    rw [hdet]; exact ids_nodup cs _ hid (lt_freshBase cs)
+  have hPk := plannedOf_kind cs (freshBase cs) hadd
+  have hDs := deferredOf_spec cs (freshBase cs)
+  have hPt := plannedOf_table cs (freshBase cs)
+  have hPtab : ((plannedOf (freshBase cs) cs).map (·.table)).Nodup := by rw [hPt]; exact htab
+  have tinjP := table_inj_of_nodup hPtab
+  -- rank: creations 0, ALTERs 1
+  let rk : Ch → Nat := fun c => if c.kind == .modify then 1 else 0
+  have hkind : ∀ x ∈ detachCycles cs, (x ∈ plannedOf (freshBase cs) cs ∧ x.kind = .add) ∨
+      (x ∈ deferredOf (freshBase cs) cs ∧ x.kind = .modify) := by
+    intro x hx
+    rw [hdet] at hx
+    rcases List.mem_append.mp hx with h | h
+    · exact Or.inl ⟨h, (hPk x h).1⟩
+    · exact Or.inr ⟨h, (hDs x h).1⟩
+  have hrk : ∀ a ∈ detachCycles cs, ∀ b ∈ detachCycles cs, dependsOn a b = true → a.id ≠ b.id → rk b < rk a := by
+    intro a ha b hb hdep hne
+    rcases hkind a ha with ⟨haP, hak⟩ | ⟨_, hak⟩ <;> rcases hkind b hb with ⟨hbP, hbk⟩ | ⟨_, hbk⟩
+    · -- add / add: only self references, so b would be a itself
+      exfalso
+      unfold dependsOn at hdep
+      rw [hak, hbk] at hdep
+      simp only [refTo, List.any_eq_true, beq_iff_eq] at hdep
+      obtain ⟨fk, hfk, hfr⟩ := hdep
+      have := (hPk a haP).2 fk hfk
+      have hab : a = b := tinjP a haP b hbP (by rw [← this, hfr])
+      exact hne (by rw [hab])
+    · -- add / modify: a reference of a creation is a self reference
+      exfalso
+      unfold dependsOn at hdep
+      rw [hak, hbk] at hdep
+      simp only [refTo, Bool.and_eq_true, bne_iff_ne, ne_eq, List.any_eq_true, beq_iff_eq] at hdep
+      obtain ⟨hneq, fk, hfk, hfr⟩ := hdep
+      have := (hPk a haP).2 fk hfk
+      exact hneq (by rw [← this, hfr])
+    · simp [rk, hak, hbk]
+    · exfalso
+      unfold dependsOn at hdep
+      rw [hak, hbk] at hdep
+      simp at hdep
+  obtain ⟨hp, hord⟩ := sortChanges_topo (detachCycles cs) rk hidD hrk
+  have hmemO : ∀ x, x ∈ planOrder cs ↔ x ∈ detachCycles cs := fun x => by unfold planOrder; exact hp.mem_iff
+  refine ⟨?_, ?_, ?_⟩
+  · -- the creations
+    have h1 : ((planOrder cs).filter (·.kind == .add)).Perm ((detachCycles cs).filter (·.kind == .add)) := by
+      unfold planOrder; exact hp.filter _
+    have h2 : (detachCycles cs).filter (·.kind == .add) = plannedOf (freshBase cs) cs := by
+      rw [hdet, List.filter_append]
+      have f1 : (plannedOf (freshBase cs) cs).filter (·.kind == .add) = plannedOf (freshBase cs) cs := by
+        rw [List.filter_eq_self]; intro x hx; simp [(hPk x hx).1]
+      have f2 : (deferredOf (freshBase cs) cs).filter (·.kind == .add) = [] := by
+        rw [List.filter_eq_nil_iff]; intro x hx; simp [(hDs x hx).1]
+      rw [f1, f2, List.append_nil]
+    rw [← hPt, ← h2]
+    exact h1.map _
+  · intro p hp' hk fk hfk
+    rcases hkind p ((hmemO p).mp hp') with ⟨hP, _⟩ | ⟨_, hm⟩
+    · exact (hPk p hP).2 fk hfk
+    · rw [hk] at hm; cases hm
+  · intro c hc fk hfk hne
+    obtain ⟨d, hd, hdk, hdt, hdsub⟩ := deferredOf_complete cs (freshBase cs) c hc fk hfk hne
+    have hdD : d ∈ detachCycles cs := by rw [hdet]; exact List.mem_append_right _ hd
+    obtain ⟨pre, post, hsplit⟩ := List.append_of_mem ((hmemO d).mpr hdD)
+    refine ⟨pre, d, post, hsplit, hdk, hdt, hdsub, ?_, ?_⟩
+    · -- the table itself
+      have : c.table ∈ (plannedOf (freshBase cs) cs).map (·.table) := by rw [hPt]; exact List.mem_map_of_mem hc
+      obtain ⟨p, hpP, hpt⟩ := List.mem_map.mp this
+      have hpD : p ∈ detachCycles cs := by rw [hdet]; exact List.mem_append_left _ hpP
+      have hpk := (hPk p hpP).1
+      refine ⟨p, ?_, hpk, hpt⟩
+      apply hord pre d post (by unfold planOrder at hsplit; exact hsplit) p hpD
+      · unfold dependsOn; rw [hdk, hpk]; simp [hdt, hpt]
+      · intro e
+        have := id_inj_of_nodup hidD d hdD p hpD e
+        rw [this, hpk] at hdk; cases hdk
+    · intro q hq hqt
+      have : q.table ∈ (plannedOf (freshBase cs) cs).map (·.table) := by rw [hPt]; exact List.mem_map_of_mem hq
+      obtain ⟨p, hpP, hpt⟩ := List.mem_map.mp this
+      have hpD : p ∈ detachCycles cs := by rw [hdet]; exact List.mem_append_left _ hpP
+      have hpk := (hPk p hpP).1
+      refine ⟨p, ?_, hpk, by rw [hpt, hqt]⟩
+      apply hord pre d post (by unfold planOrder at hsplit; exact hsplit) p hpD
+      · unfold dependsOn; rw [hdk, hpk]
+        simp only [Bool.or_eq_true, beq_iff_eq, List.any_eq_true]
+        right
+        exact ⟨Sub.addFK fk, hdsub, by simp [hpt, hqt]⟩
+      · intro e
+        have := id_inj_of_nodup hidD d hdD p hpD e
+        rw [this, hpk] at hdk; cases hdk
+
+/-- **create_plan_respects_fks** (`plan_replays` for change sets that only create tables): whatever
+the number of tables and whatever their foreign-key graph – chains, diamonds, self references, cycles
+of any length – in the planned order every foreign key to another new table is established (inline in
+its CREATE TABLE, or by a later ALTER TABLE) only after that table has been created. -/
+theorem create_plan_respects_fks (cs : List Ch)
+    (hadd : ∀ c ∈ cs, c.kind = .add) (hid : (cs.map (·.id)).Nodup) (htab : (cs.map (·.table)).Nodup) :
+    ∀ c ∈ cs, ∀ fk ∈ c.fks, fk.ref ≠ c.table → ∀ q ∈ cs, q.table = fk.ref →
+      ∃ pre x post, planOrder cs = pre ++ x :: post ∧ x.table = c.table ∧
+        (fk ∈ x.fks ∨ Sub.addFK fk ∈ x.subs) ∧ ∃ p ∈ pre, p.kind = .add ∧ p.table = fk.ref := by
+  intro c hc fk hfk hne q hq hqt
+  cases hsm : sortMap cs with
+  | some m =>
+    obtain ⟨hperm, hord⟩ := create_acyclic_order cs m hadd hid htab hsm
+    obtain ⟨pre, post, hsplit⟩ := List.append_of_mem (hperm.mem_iff.mpr hc)
+    exact ⟨pre, c, post, hsplit, rfl, Or.inl hfk, q, hord pre c post hsplit fk hfk hne q hq hqt, hadd q hq, hqt⟩
+  | none =>
+    obtain ⟨_, _, h3⟩ := create_cyclic_order cs hadd hid htab hsm
+    obtain ⟨pre, d, post, hsplit, _, hdt, hsub, _, href⟩ := h3 c hc fk hfk hne
+    exact ⟨pre, d, post, hsplit, hdt, Or.inr hsub, href q hq hqt⟩
+
+/-- non-vacuity: the chain t0 → t1 → t2 with rank = number of the table satisfies the hypotheses. -/
+example :
+    let cs : List Ch := [{ id := 1, kind := .add, table := "t0", fks := [{ sym := "fk", ref := "t1" }] },
+                         { id := 2, kind := .add, table := "t1", fks := [{ sym := "fk", ref := "t2" }] },
+                         { id := 3, kind := .add, table := "t2" }]
+    (∀ a ∈ cs, ∀ b ∈ cs, dependsOn a b = true → a.id ≠ b.id → (4 - b.id) < (4 - a.id)) ∧
+    (cs.map (·.id)).Nodup := by decide
 
 /-! ### non-vacuity: a three-cycle is detached (tests by evaluation) -/
 
